@@ -352,10 +352,26 @@ func (p *Parser) parseSpecs(specs []srcInput, listener *TreeShapeListener) (*sys
 		}
 	}
 
+	if err := p.finishModule(listener); err != nil {
+		return nil, err
+	}
+	return listener.module, nil
+}
+
+// finishModule runs the linters and the post-processing of the merged module. Like the tree
+// listener, post-processing asserts shape assumptions by panicking (e.g. a plain assignment in
+// an untyped nested transform); such a panic is reported as an error rather than crashing the
+// host process.
+func (p *Parser) finishModule(listener *TreeShapeListener) (err error) {
+	defer func() {
+		if r := recover(); r != nil {
+			err = syslutil.Exitf(ParseError, fmt.Sprintf("post-processing failed: %v\n", r))
+		}
+	}()
 	listener.lintAppDefs()
 	listener.lintEndpoint()
 	p.postProcess(listener.module)
-	return listener.module, nil
+	return nil
 }
 
 // Takes a starting file and flattens all the imports that were already retrieved into an ordered list (recursively)
